@@ -139,25 +139,6 @@ def simdReduceHorizontal (N : Nat) (packOp : List α → List α → List α) (o
 /-- shape of the result "as if keepdims": extent 1 at `axis` -/
 def keepShape (shape : List Nat) (axis : Nat) : List Nat := shape.set axis 1
 
-/-- `eval_reduction` for an index axis.  `axisI` is the axis as written by the caller (−1 allowed),
-    `zero` the literal 0 of `set1(0)`, `identity` = `view.op.identity()` or 0.  Result: row-major buffer of
-    the keepdims-shaped output.  `none` also when the axis is one the model does not cover (< −1). -/
-def simdReduceAxis (N : Nat) (packOp : List α → List α → List α) (op : α → α → α) (zero identity : α)
-    (a : NDA α) (axisI : Int) : Option (List α) :=
-  let dim := a.shape.length
-  if axisI < -1 then none else
-  let axis : Nat := if axisI = -1 then dim - 1 else axisI.toNat
-  let outShape := keepShape a.shape axis
-  let outSize := prod outShape
-  if outSize = 1 then
-    (simdReduceAll N packOp op zero a).map (fun r => [r])          -- `if (out_size == 1)` comes first
-  else
-    let out := List.replicate outSize identity
-    if axisI = -1 ∨ axis = dim - 1 then
-      simdReduceHorizontal N packOp op identity a.data outShape a.shape axis out
-    else
-      simdReduceVertical N packOp op a.data outShape a.shape axis out
-
 /-- reference: NumPy `op.reduce(a, axis, keepdims=True)` as the scalar evaluator computes it
     (`reduce_t`: slice along the axis, left fold starting from its first element), row-major result -/
 def scalarReduceAxis (op : α → α → α) (a : NDA α) (axis : Nat) : Option (List α) :=
@@ -167,6 +148,65 @@ def scalarReduceAxis (op : α → α → α) (a : NDA α) (axis : Nat) : Option 
     match allSome ((List.range (a.shape.getD axis 0)).map (fun k => a.get? (idx.set axis k))) with
     | some (x :: xs) => some (xs.foldl op x)
     | _ => none))
+
+/-- `evaluator_t<view, simd_base_t<tag>>::operator()(output)` on a reduce view with an index axis.
+    `axisI` is the axis as written by the caller (negative = counted from the end);
+    `identity` = `some (view.op.identity())`, or `none` for an op without one (subtract).
+    Result: row-major buffer of the keepdims-shaped output; `none` = invalid axis or a buffer was left.
+    Order of the checks as in the code:
+      operator():      an operand that is not row-major goes to the default (scalar) evaluator;
+      eval_reduction:  no `identity()` → scalar evaluator; `out_size == 1` → reduce everything;
+                       negative axis normalised by `+ dim`; last axis → HORIZONTAL, else VERTICAL. -/
+def simdReduceAxis (N : Nat) (packOp : List α → List α → List α) (op : α → α → α) (identity : Option α)
+    (a : NDA α) (axisI : Int) : Option (List α) :=
+  let dim := a.shape.length
+  let axisN : Int := if axisI < 0 then axisI + (dim : Int) else axisI
+  if axisN < 0 ∨ axisN ≥ (dim : Int) then none else
+  let axis : Nat := axisN.toNat
+  if a.colMajor then scalarReduceAxis op a axis else
+  match identity with
+  | none => scalarReduceAxis op a axis
+  | some e =>
+    let outShape := keepShape a.shape axis
+    let outSize := prod outShape
+    if outSize = 1 then
+      (simdReduceAll N packOp op e a).map (fun r => [r])          -- `if (out_size == 1)` comes first
+    else
+      let out := List.replicate outSize e
+      if axis = dim - 1 then
+        simdReduceHorizontal N packOp op e a.data outShape a.shape axis out
+      else
+        simdReduceVertical N packOp op a.data outShape a.shape axis out
+
+/-- … with `axis = None` (the output is one number): same dispatch, always the `out_size == 1` path -/
+def simdEvalReduceAll (N : Nat) (packOp : List α → List α → List α) (op : α → α → α) (identity : Option α)
+    (a : NDA α) : Option α :=
+  if a.colMajor then scalarReduceAll op a else
+  match identity with
+  | none => scalarReduceAll op a
+  | some e => simdReduceAll N packOp op e a
+
+/-! ### `operator()(output)`: layout check, then the packed evaluators
+
+  `evaluator_t<view, simd_base_t<tag>>::operator()` hands the view to the default (scalar) evaluator when an
+  operand is not row-major (the packed loops read `data()` linearly); otherwise it dispatches on the view kind. -/
+
+def simdEvalUnary (lanes : Nat) (packF : List α → List β) (f : α → β) (a : NDA α) (out : List β) : Option (List β) :=
+  if a.colMajor then scalarUnary f a else simdUnary lanes packF f a out
+
+def simdEvalBinarySame (lanes : Nat) (packF : List α → List α → List β) (f : α → α → β)
+    (a b : NDA α) (out : List β) : Option (List β) :=
+  if a.colMajor || b.colMajor then scalarBinarySame f a b else simdBinarySame lanes packF f a b out
+
+def simdEvalBinary2d (N : Nat) (packF : List α → List α → List β) (f : α → α → β)
+    (a b : NDA α) (lr lc rr rc oc : Nat) (out : List β) : Option (List β) :=
+  if a.colMajor || b.colMajor then scalarBinary2d f a b lr lc rr rc
+  else simdBinary2d N packF f a.data b.data lr lc rr rc oc out
+
+def simdEvalOuter (N : Nat) (packF : List α → List α → List β) (f : α → α → β)
+    (a b : NDA α) (out : List β) : Option (List β) :=
+  if a.colMajor || b.colMajor then scalarOuter f a b
+  else simdOuter N packF f a.data b.data (a.shape ++ b.shape) a.shape b.shape out
 
 /-! ### eval_matmul -/
 
